@@ -44,6 +44,7 @@ func (p *Poller) Timeouts() int64 { return p.timeouts.Load() }
 
 // Read is conn.Read for a reader that polls when the Poller is on.
 func (p *Poller) Read(conn net.Conn, buf []byte) (int, error) {
+	early := 0
 	for {
 		var due time.Time
 		if p.on.Load() {
@@ -53,9 +54,16 @@ func (p *Poller) Read(conn net.Conn, buf []byte) (int, error) {
 		n, err := conn.Read(buf)
 		if err != nil && p.on.Load() && IsTimeout(err) {
 			if !due.IsZero() && time.Now().Before(due) {
-				// a timeout before the deadline that is in force: not the
-				// expiry of anything this reader asked for
-				return n, err
+				// a timeout before the deadline that is in force.  It can be an
+				// earlier expiry reported late (held back till the bytes that
+				// came with it were handed over): that happens once per expiry.
+				// A timeout that keeps coming back without the clock moving is
+				// not the expiry of anything this reader asked for.
+				if early++; early > 4 {
+					return n, err
+				}
+			} else {
+				early = 0
 			}
 			p.timeouts.Add(1)
 			if n > 0 {
